@@ -55,7 +55,7 @@ def generate(rng, n, tier="quick"):
             s = texts.pop()
         else:
             s = rand_text(r, r.range(0, 14))
-        mode = r.weighted([("alone", 5), ("between", 4), ("raw", 3), ("comment", 1), ("around", 4), ("thm", 4)])
+        mode = r.weighted([("alone", 5), ("between", 4), ("raw", 3), ("comment", 2), ("around", 4), ("thm", 4)])
         data = {"v": "V", "w": ""}
         if mode == "alone":
             if s.endswith("\\"):
@@ -124,6 +124,9 @@ def generate(rng, n, tier="quick"):
             if s.endswith("{"):
                 s += "x"
             body = r.pick(["", " note ", "x}y", "-"])
+            if r.chance(0.5):
+                # the long form may hold anything but `--}}` – commented-out tags, `}}`, braces
+                body = "--" + r.pick([" {{name}} is off ", " a }} b ", "{{#if x}}", " }}}} ", "{{!inner}}", " -- ", "\n {{> p}} \n"]) + "--"
             tpl = "a" + quote(s) + "b{{!" + body + "}}c"
             exp = "a" + s + "bc"
             if "\n" in s or "\r" in s:
